@@ -24,13 +24,15 @@ RULES = {
     "nested_member": ("b2_sub_y", 2),  # internal bundle instance b2 of B2
     "member_clash": ("bc_x_y", 2),   # internal bundle bc of BC: members x_y, x_y_ and x.y all want the name bc_x_y(_)
     "member_clash_port": ("pc_x_y", 2),  # the same on a bundle port of the top module
+    "ref_bundle": ("g0_bp", None),   # g1 = InB(bp=g0.bp): the implicit *bundle* behind a reference to a bundle-valued port
+    "ref_bundle_member": ("g0_bp_y", 2),  # ... and its flattened member
     "array_elem": ("arr_1", None),   # arr = 2 * Inner
     "pair_elem": ("pr_n", None),     # pr = Pair(Inner)
 }
 ADV_KINDS = ["sig", "port", "inst", "array", "binst", "ncname"]
 # the object whose name starts the generated name, per rule (stretched for the length-limit cases)
 TRIG_OBJ = {"ref_group": "i0", "noconn": "i0", "noconn_named": "nnn", "bundle_member": "bb", "bundle_port": "pb", "nested_member": "b2",
-            "member_clash": "bc", "member_clash_port": "pc", "array_elem": "arr", "pair_elem": "pr"}
+            "member_clash": "bc", "member_clash_port": "pc", "array_elem": "arr", "pair_elem": "pr", "ref_bundle": "g0", "ref_bundle_member": "g0"}
 MAXLEN = 511  # ElabPass.flatname's documented limit
 SUFFIX_SETS = [c for r in (1, 2, 3) for c in itertools.combinations(("", "_", "__"), r)]
 
@@ -124,6 +126,11 @@ def design(desc):
                  ("inst", "t0", ("ext", "P2", {"k": 20}), [("a", bref("pc", "x_y"))]),
                  ("inst", "t1", ("ext", "P1", {"k": 21}), [("a", bref("pc", "x_y_"))]),
                  ("inst", "t2", ("ext", "P2", {"k": 22}), [("a", bref("pc", "x", "y"))])]
+    elif rule in ("ref_bundle", "ref_bundle_member"):
+        mods["InB"] = {"name": "InB", "style": "class", "decls": [
+            ("bport", "bp", "B1", False, None),
+            ("inst", "tx", ("ext", "P1", {"k": 31}), [("a", bref("bp", "x"))]), ("inst", "ty", ("ext", "P2", {"k": 32}), [("a", bref("bp", "y"))])]}
+        trig += [("inst", "g0", ("mod", "InB"), []), ("inst", "g1", ("mod", "InB"), [("bp", pref("g0", "bp"))])]
     elif rule == "array_elem":
         trig += [("array", "arr", ("mod", "Inner"), 2, [("a", sig("s")), ("b", sig("v"))])]
     elif rule == "pair_elem":
